@@ -517,6 +517,7 @@ struct rec {
     int live[REC_MAX];       /* the string handed to write was a live allocator block */
     unsigned n;
     unsigned cleaned;
+    unsigned fail_mask; /* bit k set: the k-th write reports failure (the sink is full, the pipe is closed ...) */
 };
 static int rec_write(struct aws_log_writer *w, const struct aws_string *out) {
     struct rec *rc = (struct rec *)w->impl;
@@ -526,6 +527,7 @@ static int rec_write(struct aws_log_writer *w, const struct aws_string *out) {
         rc->bytes[rc->n] = bee_block(out->bytes, out->len);
     }
     rc->n++;
+    if (rc->fail_mask & (1u << (rc->n - 1))) return aws_raise_error(AWS_ERROR_SYS_CALL_FAILURE);
     return AWS_OP_SUCCESS;
 }
 static void rec_clean(struct aws_log_writer *w) { ((struct rec *)w->impl)->cleaned++; }
@@ -822,6 +824,59 @@ static void shapes_eval(uint64_t index, void *ctx) {
 }
 
 /* ------------------------------------------------------------------ main --------------------------------- */
+/* ------------------------------------------------------------------------------------------------------------
+ * section sinkfail: the pipeline on the foreground channel with a writer whose k-th write fails, for every subset of
+ * four writes and both macro paths.  Every accepted call still reaches the writer exactly once with a live line, and
+ * the line is destroyed exactly once whatever the writer answers (a second destroy trips the guard allocator / the
+ * sanitizer) - added after a seeded change in which channel and pipeline both destroyed the line of a failed write
+ * ---------------------------------------------------------------------------------------------------------- */
+static uint64_t sinkfail_total(void) { return 16ull * 2 * 3; }
+static void sinkfail_eval(uint64_t index, void *ctx) {
+    (void)ctx;
+    BEE_ITEM(index);
+    uint64_t i = index;
+    unsigned mask = (unsigned)bee_digit(&i, 16);
+    int path = (int)bee_digit(&i, 2);
+    int df = (int)bee_digit(&i, 3);
+    char prog[160];
+    snprintf(prog, sizeof(prog), "pipeline/foreground logger, writer fails on writes {%s%s%s%s }, via %s", mask & 1 ? " 0" : "", mask & 2 ? " 1" : "", mask & 4 ? " 2" : "",
+             mask & 8 ? " 3" : "", path ? "get_conditional+LOGUF" : "AWS_LOGF_<LEVEL>");
+    V_COUNT("evaluations", 1);
+    if (mask) V_COUNT("nontrivial", 1);
+    if (rig_up(0, df, AWS_LL_INFO)) {
+        bee_fail("init-failed", "%s: logger set-up failed", prog);
+        return;
+    }
+    R.rec.fail_mask = mask;
+    int bad = 0;
+    for (int k = 0; k < 4 && !bad; ++k) {
+        char exp[64], what[260];
+        int explen = snprintf(exp, sizeof(exp), "call %d at %s", k, r_level_name[AWS_LL_INFO]);
+        snprintf(what, sizeof(what), "%s: call %d", prog, k);
+        struct lx e = {.level = AWS_LL_INFO, .subject = subj_name[1 + (k & 1)], .msg = (const uint8_t *)exp, .msglen = (size_t)explen, .df = R.df, .cap = 0, .what = what};
+        aws_log_subject_t sid = subj_id[1 + (k & 1)];
+        e.t_lo = now_s();
+        LOG_VIA(path, AWS_LL_INFO, sid, "call %d at %s", k, r_level_name[AWS_LL_INFO]);
+        e.t_hi = now_s();
+        const uint8_t *p;
+        size_t n;
+        unsigned writes = rig_delta(&p, &n);
+        struct lres r;
+        if (writes != 1) {
+            bee_fail(writes ? "accepted-call-produced-several-writes" : "accepted-call-produced-no-line", "%s reached the writer %u times", what, writes);
+            bad = 1;
+        } else if (check_line(p, n, &e, &r)) {
+            bad = 1;
+        } else if (ga.live_blocks != R.base_blocks) {
+            bee_fail("line-string-not-destroyed", "%s: %" PRIu64 " allocator blocks live after the call, %" PRIu64 " before (the write %s)", what, ga.live_blocks, R.base_blocks,
+                     (mask >> k) & 1 ? "failed" : "succeeded");
+            bad = 1;
+        }
+        V_COUNT((mask >> k) & 1 ? "sink_writes_failed" : "sink_writes_ok", 1);
+    }
+    rig_down(prog);
+}
+
 int main(int argc, char **argv) {
     v_init(argc, argv);
     aws_common_library_init(aws_default_allocator());
@@ -836,5 +891,6 @@ int main(int argc, char **argv) {
     bee_register("noalloc", noalloc_total, noalloc_eval, 20);
     bee_register("gate", gate_total, gate_eval, 20);
     bee_register("fmtline", fmtline_total, fmtline_eval, 20);
+    bee_register("sinkfail", sinkfail_total, sinkfail_eval, 20);
     return bee_main(argc, argv);
 }
